@@ -1,5 +1,6 @@
 """C17 The hand-managed integer storage is memory-safe and keeps its invariants."""
 import json
+import sys
 import os
 import re
 import time
@@ -117,6 +118,41 @@ def run_miri(ctx, cases, out_name, timeout):
     raise fw.ToolError("miri run failed without a Miri diagnosis (rc=%d, %d/%d histories)" % (rc, done, ncases))
 
 
+def guard_runs(ctx, cases, only=None):
+    """c17g under guard pages; a run that dies by a signal leaves the history it was executing in <out>.current"""
+    total = 0
+    plan = [("std64", False, ["--cases", cases]), ("std64", True, ["--cases", cases]),
+            ("std64", False, ["--seed", str(ctx.seed + 21), "--n", str(ctx.pick(6000, 60000)), "--len", "16", "--max-words", "24"]),
+            ("std64", True, ["--seed", str(ctx.seed + 22), "--n", str(ctx.pick(3000, 30000)), "--len", "16", "--max-words", "24"]),
+            ("release", False, ["--seed", str(ctx.seed + 23), "--n", str(ctx.pick(6000, 60000)), "--len", "16", "--max-words", "24"]),
+            ("release", True, ["--cases", cases])]
+    if only is not None:
+        plan = [("std64", False, ["--cases", only]), ("std64", True, ["--cases", only]), ("release", False, ["--cases", only]),
+                ("release", True, ["--cases", only])]
+    for k, (variant, front, argv) in enumerate(plan):
+        exe = fw.build(variant, "c17g")
+        out = ctx.path("trace-guard-%d.ndjson" % k)
+        argv = argv + (["--front"] if front else []) + ["--n", "0"] * (0 if "--n" in argv else 1)
+        rc, o = fw.sh([exe] + argv + ["--out", out], cwd=ctx.rundir, timeout=3000)
+        cur = out + ".current"
+        if rc == 0 and os.path.exists(out):
+            summ = json.loads(open(out).readline())
+            total += summ["histories"]
+            ctx.events += summ["histories"]
+            ctx.cover["executor:guard-pages" + ("-front" if front else "")] = ctx.cover.get("executor:guard-pages" + ("-front" if front else ""), 0) + summ["histories"]
+            continue
+        if rc < 0 or rc in (139, 134, 135, 138):
+            # died by a signal: SIGSEGV / SIGBUS from a guard page, SIGABRT from a std precondition check or the allocator
+            case = json.loads(open(cur).readline()) if os.path.exists(cur) else {"steps": []}
+            case.update({"op": "guard", "signal": -rc if rc < 0 else rc - 128, "build": variant, "guard": "front" if front else "back"})
+            ctx.violations.append((case, "memory-fault-under-guard-pages", "guard"))
+            continue
+        sys.stderr.write(o[-2000:])
+        raise fw.ToolError("guard-page executor failed rc=%d (%s)" % (rc, " ".join(argv[:4])))
+    ctx.scope["guard_page_histories"] = total
+    return total
+
+
 def run(ctx):
     drive = fw.build("std64", "c17")
     c05.assume_fixed(ctx)
@@ -128,6 +164,7 @@ def run(ctx):
         open(p, "w").write(json.dumps({k: case[k] for k in ("pool", "nr", "steps")}) + "\n")
         tr = ctx.drive(drive, ["--cases", p, "--n", "0", "--lite"], "trace-replay.ndjson")
         ctx.monitor("replay", SPECDIR, "Trace_C17.tla", cfg, tr, libs=LIBS)
+        guard_runs(ctx, None, only=p)
         mtr, bad, _ = run_miri(ctx, p, "trace-replay-miri.ndjson", 900)
         if bad:
             ctx.violations.append((bad, "miri-error", "miri"))
@@ -164,6 +201,10 @@ def run(ctx):
     tr3 = ctx.drive(rel, ["--seed", str(ctx.seed + 11), "--n", str(ctx.pick(1500, 20000)), "--len", "16", "--max-words", "24", "--lite"], "trace-rnd-release.ndjson")
     monitor_all(ctx, "mon-rnd-release", tr3, cfg, totals)
     os.remove(tr3)
+    # guard-page executor: every block the library allocates lies against an inaccessible page (behind it; in a second pass
+    # in front of it), freed blocks stay inaccessible: an out-of-bounds READ or a use after free is a hardware fault.  The
+    # generated histories and fresh random ones, debug and release.
+    guard_runs(ctx, cases)
     # the same generated histories under Miri (every k-th case, spread over the whole file)
     nm = ctx.pick(45, 450)
     lines = [l for l in open(cases) if l.strip()]
@@ -199,6 +240,7 @@ def run(ctx):
                "miri": {"histories": len(sub), "operations": nops, "wall_s": round(mwall, 1)}, "notes": ctx.notes,
                "level_note": "UB detection is delegated to Miri as replay executor; allocator contract and invariants by TLC"},
         required_cover=["pool:U", "pool:I", "src:gen", "src:rnd", "src:miri", "executor:miri", "executor:recording-allocator",
+                        "executor:guard-pages", "executor:guard-pages-front",
                         "heap-to-inline", "inline-to-heap", "realloc-event", "clonefrom-reuses-buffer", "clonefrom-realloc-too-small",
                         "clonefrom-realloc-too-large", "clonefrom-inline-frees-buffer", "clonefrom-inline-to-heap",
                         "clonefrom-self-clone", "clonefrom-static-source", "op-assign-own-clone", "op-assign-in-place",
